@@ -13,11 +13,12 @@
    policy, options i and w=DIR, the p command, the filter loop.  MacOS members are covered by
    mac_run_content / mac_extract_content and the forest theorem extract_archive_below_any.
    Not proved (decided on every run by the reference oracle on the real tool and by the
-   correspondence): the tree theorem for a wildcard-selected sub-sequence, w=DIR with more
-   than one missing path component or a trailing '/', p for MacOS members. *)
+   correspondence): the wildcard-selected extraction of archives WITH directory
+   entries (proved for archives of top-level files and links: extract_archive_selected_flat),
+   creation of a missing DIR spelled with a trailing '/', p for MacOS members. *)
 From Lhasa Require Import Base Generated Header Fs FsRun Glob Reader CliFilter CliExtract CliMain InputStream ListOut P_ListOut P_FsExtract P_CliExtract P_CliTree.
 From Lhasa Require Properties_E2E.
-From Lhasa Require P_CliOverwrite P_CliTreeGen P_CliFlat P_CliWdir P_CliPrint P_CliFilterSkip P_MacContent P_MacExtract P_CliTreeAny.
+From Lhasa Require P_CliOverwrite P_CliTreeGen P_CliFlat P_CliWdir P_CliPrint P_CliFilterSkip P_MacContent P_MacExtract P_CliTreeAny P_CliWdirN P_CliTreeSlash P_CliSelectFlat.
 Local Open Scope N_scope.
 
 (* '*' matches any run of bytes, '?' exactly one, any other byte itself (case-sensitive) *)
@@ -196,6 +197,19 @@ Proof. exact Properties_E2E.e2e_cli_run_stdin. Qed.
 Theorem e2e_cli_run_found : ltac:(let t := type of Properties_E2E.e2e_cli_run_found in exact t).
 Proof. exact Properties_E2E.e2e_cli_run_found. Qed.
 
+(* w=DIR with several missing components: each is created in turn 0755 & ~umask and the
+   innermost holds exactly the described nodes; w=DIR/ (trailing slash, DIR present): the
+   forest theorem over the doubled-slash path strings; wildcard selection together with
+   extraction for archives of top-level files and safe links: exactly the members some
+   pattern matches are extracted, in order, the others are passed over undecoded, nothing
+   else is created. *)
+Theorem extract_archive_wdir_created_n : ltac:(let t := type of P_CliWdirN.extract_archive_wdir_created_n in exact t).
+Proof. exact P_CliWdirN.extract_archive_wdir_created_n. Qed.
+Theorem extract_archive_below_slash : ltac:(let t := type of P_CliTreeSlash.extract_archive_below_slash in exact t).
+Proof. exact P_CliTreeSlash.extract_archive_below_slash. Qed.
+Theorem extract_archive_selected_flat : ltac:(let t := type of P_CliSelectFlat.extract_archive_selected_flat in exact t).
+Proof. exact P_CliSelectFlat.extract_archive_selected_flat. Qed.
+
 Print Assumptions glob_correct.
 Print Assumptions wildcards_select_exactly.
 Print Assumptions extraction_instance.
@@ -222,3 +236,6 @@ Print Assumptions e2e_upcoming.
 Print Assumptions e2e_cli_run.
 Print Assumptions e2e_cli_run_stdin.
 Print Assumptions e2e_cli_run_found.
+Print Assumptions extract_archive_wdir_created_n.
+Print Assumptions extract_archive_below_slash.
+Print Assumptions extract_archive_selected_flat.
